@@ -12,6 +12,7 @@ CFG = cfg('C07', extract='Ex_C07', driver='c07',
                'every secret integer >= 16 octets (big/little endian, also while unlocked) and for the encrypted secret blob; sign / certify / revoke / '
                'revoker / bind / decrypt on derived, loaded (binary, armored), subkey, locked, unlocked objects and on public / private primary keys WITHOUT user id '
                '(twin derived before any add_uid, bare public-key packet loaded from bytes; add_uid too: PGPError required) vs the model decision table; '
+               'a certify-only primary whose signing subkey is the component KeyAction selects: public twin / loaded public key refuse sign (is_public on the subkey), private key with only that subkey locked refuses sign (is_unlocked) and runs certify, the table fed with the attributes of the component the decorator\'s own usage() selects; '
                'private keys loaded with non-default ECDH KDF parameters (twin must carry them); '
                'private keys with a key packet of an algorithm id without a material class (21, 0; opaque primary, or opaque private subkey under an Ed25519 / RSA primary): '
                'PGPKey.pubkey and the subkey\'s pubkey must REFUSE with NotImplementedError (model pubkey_of = None), no half-built twin, key unchanged, private operations on the opaque primary raise; '
